@@ -465,6 +465,31 @@ def mixed_arg_strings():
 
 
 # ---------------------------------------------------------------------------------------------
+# environment names far from the name pool (plain strings for the E-STR checks)
+
+ENV_NAMES = ['[tex]', 'tex', 'a]', '[a', 'a[b]', 'a b', ' a', 'a ', 'a*', '*', 'a1', '1', '\u00e9', 'a.b', 'a-b', 'a:b', 'a_b',
+             'a,b', 'a|b', 'a&b', 'a#', 'a~', 'math', 'displaymath', 'document', 'item', 'begin', 'end', 'verbatimx',
+             'xverbatim', 'a$', 'a%', 'a\\b', 'a{b}', 'equation*', 'align*', 'itemize', 'BraceGroup', 'None', '']
+
+
+def env_name_strings():
+    """\\begin{NAME}..\\end{NAME} for names outside the usual pool - brackets, blanks, digits, punctuation, the
+    names the library uses internally, near-misses of the built-in verbatim names - in eight small shapes"""
+    a = alpha('full')
+    N = a.N
+    for nm in ENV_NAMES:
+        b, e = '\\begin{%s}' % nm, '\\end{%s}' % nm
+        yield b + N.a + e
+        yield b + '{' + N.b + '}' + N.a + e
+        yield b + '[' + N.b + ']' + N.a + e
+        yield '{' + b + e + '}'
+        yield b + b + N.a + e + e
+        yield N.o + b + N.a + e + N.o
+        yield '$' + b + N.a + e + '$'
+        yield b + ' ' + N.a + ' ' + e + '\n'
+
+
+# ---------------------------------------------------------------------------------------------
 # repository samples and documentation examples
 
 def sample_texts():
